@@ -55,7 +55,7 @@ def case_strategy(draw):
                 inject[v] = sorted(draw(st.sets(st.integers(0, len(rows) - 1), min_size=1, max_size=len(rows))))
         history.append({"rows": rows, "inject": inject, "from": draw(st.sampled_from(["training", "previous", "previous"])),
                         "new_index": draw(st.sampled_from([None, None, "reversed", "offset", "strings", "repeated"])),
-                        "fractional": draw(st.integers(0, 2)) == 0})
+                        "fractional": draw(st.integers(0, 2)) == 0, "new_nan": draw(st.integers(0, 3)) == 0})
     holes = None
     numeric_used = sorted(c for c in rich.used_columns(d) if frames.column(spec, c)["kind"] == "float" and c in ("x", "z", "y", "p"))
     if numeric_used and draw(st.integers(0, 3)) == 0:
@@ -228,6 +228,13 @@ def judge(ctx, case):
         for step, h in enumerate(case["history"]):
             sub = {"frame": spec, "rows": h["rows"], "inject": h["inject"], "as_categorical": False, "new_index": h.get("new_index")}
             _, new = c10.new_frames(sub)
+            if h.get("new_nan"):
+                # a missing value in the frame being evaluated: every container still has one row per row of that frame
+                for col_ in ("x", "z"):
+                    if col_ in new.columns and new[col_].dtype.kind == "f":
+                        new = new.copy()
+                        new.iloc[0, new.columns.get_loc(col_)] = np.nan
+                        break
             if h.get("fractional"):
                 # a column that held whole numbers in training holds fractions now
                 for col_ in ("x", "z"):
